@@ -42,9 +42,16 @@ var pctMenu = []float64{-100, -90, -50, -25, -1, 1, 25, 50, 90, 99, 100, 0} // 2
 var intervals = []time.Duration{time.Second / 2, time.Second, 10 * time.Second}
 var pctStats = []string{"count", "mean", "sum", "sum_squares", "upper", "lower"}
 
+// masks 8..16 disable one of the plain (non-percentile) sub-metrics: the statistics that stay enabled must not change
+var plainStats = []string{"lower", "upper", "count", "count-per-second", "mean", "median", "stddev", "sum", "sum-squares"}
+var plainField = map[string]string{"lower": "min", "upper": "max", "count": "count", "count-per-second": "per_second", "mean": "mean", "median": "median", "stddev": "stddev", "sum": "sum", "sum-squares": "sum_squares"}
+
 func mask(m int) (gostatsd.TimerSubtypes, map[string]bool) {
 	d := map[string]bool{}
 	switch {
+	case m >= 8:
+		k := plainStats[m-8]
+		return gostatsd.TimerSubtypes{Lower: k == "lower", Upper: k == "upper", Count: k == "count", CountPerSecond: k == "count-per-second", Mean: k == "mean", Median: k == "median", StdDev: k == "stddev", Sum: k == "sum", SumSquares: k == "sum-squares"}, d
 	case m == 1:
 		for _, s := range pctStats {
 			d[s] = true
@@ -59,6 +66,9 @@ func mask(m int) (gostatsd.TimerSubtypes, map[string]bool) {
 func disabledKeys(m int) map[string]bool {
 	_, d := mask(m)
 	out := map[string]bool{}
+	if m >= 8 {
+		out[plainStats[m-8]] = true
+	}
 	for k, v := range d {
 		out[map[string]string{"count": "count-pct", "mean": "mean-pct", "sum": "sum-pct", "sum_squares": "sum-squares-pct", "upper": "upper-pct", "lower": "lower-pct"}[k]] = v
 	}
@@ -189,6 +199,9 @@ func check(c tcase) {
 		g, w float64
 	}
 	for _, f := range []fld{{"count", float64(t.Count), float64(w.Count)}, {"per_second", t.PerSecond, w.PerSecond}, {"min", t.Min, w.Min}, {"max", t.Max, w.Max}, {"sum", t.Sum, w.Sum}, {"sum_squares", t.SumSquares, w.SumSquares}, {"mean", t.Mean, w.Mean}, {"median", t.Median, w.Median}, {"stddev", t.StdDev, w.StdDev}} {
+		if c.Mask >= 8 && plainField[plainStats[c.Mask-8]] == f.n {
+			continue // the disabled sub-metric itself is not reported
+		}
 		if !timerref.Close(f.g, f.w) {
 			bad("stat-"+f.n, fmt.Sprintf("%s = %v, want %v", f.n, f.g, f.w))
 		}
@@ -273,6 +286,12 @@ func main() {
 							}
 						}
 					}
+				}
+			}
+			// one plain sub-metric disabled, with and without percentiles
+			for m := 8; m < 8+len(plainStats); m++ {
+				for _, pl := range [][]float64{nil, {90}} {
+					check(tcase{Values: cur, RatePat: 0, Grouping: 0, Pcts: pl, Interval: time.Second, Mask: m})
 				}
 			}
 			// (large values with a small spread are a separate family below)
